@@ -210,10 +210,220 @@ def build_array(ad, k=0, toks=None):
         vals = vals.astype(vd)          # narrower dtype of the same kind (every value exactly representable)
     if ad.get("order") == "F" and vals.ndim >= 2:
         vals = np.asfortranarray(vals)  # Fortran-contiguous memory layout, same logical array
-    a = DimArray(vals, axes=axes)
+    a = None
+    mode = _aged(ad)
+    if mode == 1:
+        a = _build_aged(axes, vals)
+    elif mode == 2:
+        a = _build_derived(axes, vals)
+    elif mode == 3:
+        a = _build_reversed(axes, vals)
+    if a is None:
+        a = DimArray(vals, axes=axes)
     for key, v in ad.get("attrs_py", {}).items():
         a.attrs[key] = v
     return a
+
+
+# ---- "aged" construction (history-independence clause of C05 applied to every property's inputs) ------------------
+# A share of the arrays the generators describe (decided by a hash of the description, so a replay rebuilds the same
+# object) is not constructed directly: an array with OTHER labels (the target labels reversed) and OTHER values (no NaN)
+# is built, queried in the ways that could populate lazily computed state (ordering flag, label lookups, label slices,
+# sorting, reindexing, alignment, NaN-skipping reductions), then relabelled and overwritten IN PLACE - through the
+# public setters - to the described state, and queried once more.  By the last clause of C05 such an object must answer
+# every further operation like a freshly constructed one, so every oracle and every model comparison applies unchanged;
+# a stale cache anywhere in the library makes the aged share of the stream disagree.  If the in-place route cannot reach
+# exactly the described state (dtype of labels or values differs) the array is built directly instead.
+AGED = {"built": 0, "aged": 0, "fallback": 0}
+
+
+def _aged(ad):
+    if os.environ.get("VERIF_AGE", "1") == "0" or ad.get("noage"):
+        return False
+    AGED["built"] += 1
+    import zlib
+    return {0: 1, 1: 2, 2: 3}.get(zlib.crc32(json.dumps(ad, sort_keys=True, default=str).encode()) % 5, 0)
+
+
+def _same_state(a, axes, vals, layout=True):
+    ok = (a.values.dtype == vals.dtype and a.values.shape == vals.shape
+          and (not layout or (a.values.flags["C_CONTIGUOUS"] == vals.flags["C_CONTIGUOUS"]
+                              and a.values.flags["F_CONTIGUOUS"] == vals.flags["F_CONTIGUOUS"])) and a.dims == tuple(x.name for x in axes)
+          and all(type(p) is type(q) and (p == q or (p != p and q != q)) for p, q in zip(a.values.reshape(-1).tolist(), vals.reshape(-1).tolist())))
+    for i, ax in enumerate(axes):
+        got = a.axes[i].values
+        ok = ok and type(a.axes[i]) is Axis and got.dtype == ax.values.dtype and got.shape == ax.values.shape and all(
+            type(p) is type(q) and (p == q or (p != p and q != q)) for p, q in zip(got.tolist(), ax.values.tolist()))
+        ok = ok and dict(a.axes[i].attrs) == dict(ax.attrs)
+    return bool(ok)
+
+
+def _build_reversed(axes, vals):
+    """third route: the described array is the REVERSING position slice `B.ix[::-1]` of a queried array that holds the same
+    data the other way round along its first dimension (the memory layout of the result - a view with a negative stride -
+    is not part of what an array answers)"""
+    try:
+        if vals.ndim == 0:
+            return None
+        axes0 = []
+        for i, ax in enumerate(axes):
+            a0 = Axis(ax.values[::-1].copy() if i == 0 else ax.values.copy(), ax.name)
+            a0.attrs.update(ax.attrs)
+            axes0.append(a0)
+        B = DimArray(vals[::-1].copy(), axes=axes0)
+        _warm(B, True)
+        a = B.ix[slice(None, None, -1)] if vals.ndim == 1 else B.ix[(slice(None, None, -1),) + (slice(None),) * (vals.ndim - 1)]
+        if not isinstance(a, DimArray) or not _same_state(a, axes, vals, layout=False):
+            AGED["fallback"] += 1
+            return None
+        AGED["reversed"] = AGED.get("reversed", 0) + 1
+        return a
+    except Exception:
+        AGED["fallback"] += 1
+        return None
+
+
+def _build_derived(axes, vals):
+    """second route: the described array is the leading POSITION SLICE of a larger array whose first axis carries one more
+    label (chosen so that the longer axis is not monotonic where possible) and which has been queried before the slice
+    is taken: state that a derived axis inherits from its parent (ordering flags, lookup tables) must not be stale."""
+    try:
+        if vals.ndim == 0 or not vals.flags["C_CONTIGUOUS"]:
+            return None
+        ax0 = axes[0]
+        L = ax0.values
+        kinds = set(type(x) for x in L.tolist())
+        if L.dtype.kind in "iuf" and not np.isnan(L.astype(float)).any():
+            cands = [L.min() - 1, L.max() + 1] if L.size else [0]
+        elif L.dtype.kind == "O" and kinds == {str}:
+            cands = ["!" + min(L.tolist()), "~" + max(L.tolist())]
+        else:
+            return None
+        big = None
+        for e in cands:
+            Lb = np.empty(L.size + 1, dtype=L.dtype)
+            Lb[:L.size] = L
+            Lb[L.size] = e
+            if Lb[L.size] != e or (L.size and (Lb[:L.size] == Lb[L.size]).any()):
+                continue
+            big = Lb
+            d = np.diff(Lb.astype(float)) if L.dtype.kind in "iuf" else None
+            mono = (d is not None and (np.all(d > 0) or np.all(d < 0))) or (d is None and (Lb.tolist() == sorted(Lb.tolist()) or Lb.tolist() == sorted(Lb.tolist(), reverse=True)))
+            if not mono:
+                break
+        if big is None:
+            return None
+        vb = np.empty((vals.shape[0] + 1,) + vals.shape[1:], dtype=vals.dtype)
+        vb[:vals.shape[0]] = vals
+        vb[vals.shape[0]] = vals[-1] if vals.shape[0] else (0 if vals.dtype.kind != "O" else None)
+        b0 = Axis(big, ax0.name)
+        b0.attrs.update(ax0.attrs)
+        rest = []
+        for ax in axes[1:]:
+            r = Axis(ax.values.copy(), ax.name)
+            r.attrs.update(ax.attrs)
+            rest.append(r)
+        B = DimArray(vb, axes=[b0] + rest)
+        _warm(B, True)
+        a = B.ix[slice(0, vals.shape[0])] if vals.ndim == 1 else B.ix[(slice(0, vals.shape[0]),) + (slice(None),) * (vals.ndim - 1)]
+        if not isinstance(a, DimArray) or not _same_state(a, axes, vals):
+            AGED["fallback"] += 1
+            return None
+        AGED["derived"] = AGED.get("derived", 0) + 1
+        return a
+    except Exception:
+        AGED["fallback"] += 1
+        return None
+
+
+def _warm(a, full):
+    """queries only: none of them may change what the array answers later"""
+    import warnings
+    with warnings.catch_warnings():
+        warnings.simplefilter("ignore")
+        with np.errstate(all="ignore"):
+            for i, ax in enumerate(a.axes):
+                probes = [lambda: ax.is_monotonic()]
+                if ax.size:
+                    l0, l1 = ax.values[0], ax.values[-1]
+                    probes += [lambda: ax.loc[l0], lambda: ax.loc[[l1, l0]], lambda: ax.loc[slice(l0, l1)],
+                               lambda: ax.loc[slice(l1, l0)], lambda: a.take({ax.name: l1}), lambda: a.take({ax.name: slice(l0, None)})]
+                if full:
+                    probes += [lambda: a.sort_axis(axis=i), lambda: a.reindex_axis(ax.values[::-1].copy(), axis=i),
+                               lambda: a.reindex_axis(ax.values[:1].copy(), axis=i, method="left") if ax.values.dtype.kind in "iuf" else None,
+                               lambda: ax.union(ax[:1]) if ax.size else None,
+                               lambda: a.sum(axis=i, skipna=True) if a.values.dtype.kind in "fiu" else None,
+                               lambda: a.max(axis=i, skipna=True) if a.values.dtype.kind in "fiu" else None,
+                               lambda: a.argmin() if a.values.dtype.kind in "fiu" and a.size else None,
+                               lambda: a.dropna(axis=i) if a.values.dtype.kind == "f" else None,
+                               lambda: a.interp_axis(ax.values[:1].astype(float), axis=i) if ax.values.dtype.kind in "iuf" and a.values.dtype.kind == "f" else None]
+                for p in probes:
+                    try:
+                        p()
+                    except Exception:
+                        pass
+            if full and a.ndim:
+                for p in (lambda: a + a.take_axis([0], axis=0, indexing="position"), lambda: a.T, lambda: a.flatten(),
+                          lambda: a.transpose(*a.dims[::-1]), lambda: a.swapaxes(a.dims[0], a.dims[-1]),
+                          lambda: a.sum(axis=a.dims[-1]), lambda: a.squeeze(a.dims[0]), lambda: a.sort_axis(axis=a.dims[-1]),
+                          lambda: a.reindex_axis(a.axes[-1].values[::-1].copy(), axis=a.dims[-1])):
+                    try:
+                        p()
+                    except Exception:
+                        pass
+
+
+def _build_aged(axes, vals):
+    try:
+        if vals.ndim == 0:
+            return None
+        rev = (slice(None, None, -1),) * vals.ndim
+        v0 = vals.copy(order="K")
+        if v0.dtype.kind == "f":
+            v0[~np.isfinite(v0)] = 0.5
+        v0[...] = v0[rev].copy()
+        axes0 = []
+        names = [ax.name for ax in axes]
+        names0 = names[1:] + names[:1]                       # the dimension names start out rotated
+        for ax, nm in zip(axes, names0):
+            L0 = ax.values[::-1].copy()
+            try:
+                srt = np.sort(ax.values)                      # (an unsorted target starts out sorted: ordering known to be "increasing")
+                if srt.dtype == ax.values.dtype and not all(p == q for p, q in zip(srt.tolist(), ax.values.tolist())):
+                    L0 = srt
+            except Exception:
+                pass
+            a0 = Axis(L0, nm)
+            a0.attrs.update(ax.attrs)
+            axes0.append(a0)
+        a = DimArray(v0, axes=axes0)
+        if a.values is not v0:
+            return None
+        _warm(a, True)
+        for i, nm in enumerate(names):
+            a.axes[i].name = nm                               # renamed in place, through the Axis objects
+        # in-place route to the described state, through the public setters
+        for i, ax in enumerate(axes):
+            how = (i + ax.size) % 3
+            if how == 0:
+                a.axes[i][slice(None, None, 1)] = ax.values        # Axis.__setitem__
+            elif how == 1:
+                a.set_axis(ax.values, axis=i, inplace=True)
+            else:
+                lab = list(a.labels)
+                lab[i] = ax.values
+                a.labels = lab
+        a.values[...] = vals
+        ok = a.values is v0 and _same_state(a, axes, vals)
+        if not ok:
+            AGED["fallback"] += 1
+            return None
+        _warm(a, False)
+        AGED["aged"] += 1
+        return a
+    except Exception:
+        AGED["fallback"] += 1
+        return None
 
 
 def lean_axis(ad, toks):
